@@ -23,15 +23,28 @@ KNOWN = []
 
 
 class Capture(logging.Handler):
-    def __init__(self, lid, sink, base):
+    """deferred: the handler only keeps the record (like logging.handlers.MemoryHandler) and the
+    fields are read after the write has been applied - they must still be those from before"""
+
+    def __init__(self, lid, sink, base, deferred=False):
         super().__init__()
-        self.lid, self.sink, self.base = lid, sink, base
+        self.lid, self.sink, self.base, self.deferred = lid, sink, base, deferred
 
     def emit(self, record):
+        if self.deferred:
+            self.sink.append({"logger": self.lid, "level": record.levelno, "name": record.name, "record": record,
+                              "base_demand_at_emit": self.base._demand, "args": None})
+            return
         a = record.args
+
+        def field(k):
+            try:
+                return a[k]           # what %-formatting does (a mapping may compute its items)
+            except Exception:
+                return None
         self.sink.append({"logger": self.lid, "level": record.levelno, "name": record.name,
-                          "args": {k: a.get(k) for k in ("value", "demand", "supply", "utilisation", "allocation")},
-                          "target_is": a.get("target"), "base_demand_at_emit": self.base._demand, "record": record,
+                          "args": {k: field(k) for k in ("value", "demand", "supply", "utilisation", "allocation")},
+                          "target_is": field("target"), "base_demand_at_emit": self.base._demand, "record": record,
                           "keys": sorted(a.keys())})
 
 
@@ -79,7 +92,7 @@ def gen_case(rng):
             ops.append(["set", wire(q(rng, -5, 40))])
         else:
             ops.append(["base", rng.choice(["supply", "utilisation", "allocation", "demand"]), wire(q(rng, 0, 20))])
-    return {"mode": "stack", "pool": pool, "layers": layers, "ops": ops}
+    return {"mode": "stack", "pool": pool, "layers": layers, "ops": ops, "deferred": rng.random() < 0.3}
 
 
 def num(w):
@@ -118,7 +131,7 @@ def impl(case):
             lg = logging.getLogger(name)
             lg.setLevel(logging.DEBUG)
             lg.propagate = False
-            h = Capture(l[1], sink, base)
+            h = Capture(l[1], sink, base, deferred=bool(case.get("deferred")))
             lg.addHandler(h)
             handlers.append((lg, h))
             level = [logging.INFO, logging.WARNING, logging.DEBUG][l[1] % 3]
@@ -141,6 +154,17 @@ def impl(case):
                 del sink[:]
                 before = base._demand
                 top.demand = num(op[1])
+                for r in sink:
+                    if r["args"] is None:
+                        a = r["record"].args
+
+                        def field(k):
+                            try:
+                                return a[k]
+                            except Exception:
+                                return None
+                        r["args"] = {k: field(k) for k in ("value", "demand", "supply", "utilisation", "allocation")}
+                        r["target_is"] = field("target")
                 recs = [[r["logger"], canon(r["args"]["value"]), canon(r["args"]["demand"]), canon(r["args"]["supply"]),
                          canon(r["args"]["utilisation"]), canon(r["args"]["allocation"])] for r in sink]
                 obs.append({"records": recs, "base": canon(base._demand)})
@@ -150,7 +174,7 @@ def impl(case):
                               # a handler that keeps the record and formats it later (MemoryHandler, a test
                               # fixture) must still see the state from before the write
                               "late_ok": all(late_same(r) for r in sink),
-                              "keys_ok": all(set(r["keys"]) >= {"value", "demand", "supply", "utilisation", "allocation", "target"} for r in sink)})
+                              "keys_ok": all(r["target_is"] is not None and all(v is not None for v in r["args"].values()) for r in sink)})
             else:
                 setattr(base, "_" + op[1], num(op[2]))
                 obs.append(None)
@@ -215,6 +239,9 @@ def oracle(case, o):
                 if len(recs) != nlog:
                     out.append(("logger-record-count", "%d records for %d Loggers in a transparent stack" % (len(recs), nlog)))
                 for r in recs:
+                    if any(x is None for x in r[1:]):
+                        out.append(("logger-record-form", "a record lacks one of value / demand / supply / utilisation / allocation: %r" % (r,)))
+                        break
                     got = [unwire(x) for x in r[1:]]
                     want = [v, st["demand"], st["supply"], st["utilisation"], st["allocation"]]
                     if got != want:
